@@ -6,6 +6,7 @@ package main
 
 import (
 	"fmt"
+	"go/types"
 	"math/big"
 	"sort"
 	"strings"
@@ -128,6 +129,8 @@ type Run struct {
 	randCnt  int
 	bytesOfBig map[int][]*Term
 	nonNeg   map[int]bool
+	wk       *Worker
+	zeroCache map[types.Type]Value
 }
 
 func (r *Run) inPrefix() bool { return r.pos < len(r.prefix) }
